@@ -16,6 +16,7 @@ import (
 	"github.com/q191201771/lal/pkg/base"
 	"github.com/q191201771/lal/pkg/hevc"
 	"github.com/q191201771/lal/pkg/remux"
+	"github.com/q191201771/lal/pkg/rtprtcp"
 	"github.com/q191201771/lal/pkg/sdp"
 
 	"lalverif/fw"
@@ -970,6 +971,98 @@ func c19Remuxer(c *fw.Ctx, n int) {
 	}
 }
 
+
+// c19Rtmp2Rtsp: the RTMP→RTSP remuxer fed from a message buffer that the caller reuses and
+// overwrites (lal's own relay pull reads every message into one buffer): the SDP it hands over
+// later - once audio has shown up or the probe has run out - must carry the parameter sets of the
+// sequence header as they were published.
+func c19Rtmp2Rtsp(c *fw.Ctx, n int) {
+	r := c.Rng
+	j := &c19Judge{c, "rtmp2rtsp"}
+	for k := 0; k < n && !c.Violated(); k++ {
+		c.Sub(k)
+		mode := []string{"avc", "hevc", "hevc-enh"}[k%3]
+		audio := []string{"none", "aac-late", "aac-first"}[(k/3)%3]
+		c.Eval(1)
+		c.Cell("rtmp2rtsp/%s/%s", mode, audio)
+		var vsh []byte
+		var want [][]byte
+		switch mode {
+		case "avc":
+			vsh = gen.AvcSeqHeader(3, k)
+			want = [][]byte{gen.AvcSps, append([]byte{0x68, 0xce, 0x3c, 0x80}, gen.Tag(3, gen.SeqHdrTagBase+k)...)}
+		default:
+			vsh = gen.HevcSeqHeader(3, k, mode == "hevc-enh")
+			want = [][]byte{gen.HevcVps, gen.HevcSps, gen.HevcPpsVer(3, k)}
+		}
+		ash := gen.AacSeqHeader(3, k)
+		var sdps [][]byte
+		rm := remux.NewRtmp2RtspRemuxer(func(ctx sdp.LogicContext) { sdps = append(sdps, append([]byte(nil), ctx.RawSdp...)) }, func(pkt rtprtcp.RtpPacket) {})
+		buf := make([]byte, 0, 8192) // the caller's one read buffer
+		feed := func(typ uint8, ts uint32, p []byte) {
+			buf = append(buf[:0], p...)
+			var msg base.RtmpMsg
+			msg.Header.MsgTypeId, msg.Header.TimestampAbs, msg.Header.MsgLen, msg.Header.MsgStreamId, msg.Header.Csid = typ, ts, uint32(len(p)), 1, csidFor(typ)
+			msg.Payload = buf
+			rm.FeedRtmpMsg(msg)
+			for x := range buf {
+				buf[x] = 0xEE
+			}
+		}
+		if audio == "aac-first" {
+			feed(8, 0, ash)
+		}
+		feed(9, 0, vsh)
+		for f := 0; f < 24; f++ {
+			var p []byte
+			if mode == "avc" {
+				p = gen.VideoFrame(r, 3, 100+f, f%8 == 0, 0, 200+r.Intn(3000))
+			} else {
+				p = gen.HevcFrame(r, 3, 100+f, f%8 == 0, 0, 200+r.Intn(3000), map[string]int{"hevc": 0, "hevc-enh": 1 + f%2}[mode])
+			}
+			feed(9, uint32(f*40), p)
+			if audio == "aac-late" && f == 5 {
+				feed(8, uint32(f*40), ash)
+			}
+			if audio != "none" && f > 5 {
+				feed(8, uint32(f*40), gen.AudioFrame(r, 3, 500+f, 60))
+			}
+		}
+		if len(sdps) == 0 {
+			j.bad("no-sdp", "no SDP was handed over after a %s sequence header and 24 frames (audio: %s)", mode, audio)
+			return
+		}
+		sd, err := ref.ParseSdp(sdps[0])
+		if err != nil {
+			j.bad("sdp-parse", "the SDP does not parse: %v\n%s", err, sdps[0])
+			return
+		}
+		var got [][]byte
+		for _, m := range sd.Media {
+			if m.Kind != "video" {
+				continue
+			}
+			if mode == "avc" {
+				got, err = m.H264ParamSets()
+			} else {
+				var v, sp, pp []byte
+				v, sp, pp, err = m.H265ParamSets()
+				got = [][]byte{v, sp, pp}
+			}
+		}
+		if err != nil || len(got) != len(want) {
+			j.bad("sdp-paramsets", "the SDP's video section does not yield %d parameter sets: %v\n%s", len(want), err, sdps[0])
+			return
+		}
+		for x := range want {
+			if !bytes.Equal(got[x], want[x]) {
+				j.bad("paramset-changed", "%s, audio %s: parameter set %d published as %s is %s in the SDP (the remuxer kept a reference into the caller's message buffer, which is reused for the next message)", mode, audio, x, hx(want[x]), hx(got[x]))
+				return
+			}
+		}
+	}
+}
+
 var (
 	c19SrvMu sync.Mutex
 	c19Srv   *srv.Server
@@ -1065,7 +1158,7 @@ func init() {
 			return 16 * 7
 		},
 		CaseTimeout: func(string) time.Duration { return 5 * time.Minute },
-		Rule: "generated inputs through lal's real conversion functions, output compared with the input bytes: (1) AVC sequence header build → parse (both parsers) → Annex-B for SPS from a bit-exact H.264 SPS encoder model or arbitrary NAL-like byte strings of 4…65 535 bytes with emulation-prevention bytes, PPS up to 65 535 bytes; (2) HEVC classic and enhanced-RTMP sequence headers likewise (model SPS, real VPS, PPS up to 65 535 bytes); (3) NAL lists of 0–40 units (1 B…140 KB) AVCC → Annex-B → reference splitter, Annex-B with 3/4-byte start codes, leading and trailing zeros → IterateNaluAnnexb / Annexb2Avcc → reference splitter, IterateNaluAvcc, SplitNaluAvcc; (4) every 2-byte AudioSpecificConfig (object 1–31 × 13 indices × 0–7 channels): unpack/pack, RTMP sequence header, ADTS header for object 1–4 parsed by the reference ADTS reader and converted back; (5) sdp.Pack for H264/H265/none × AAC (13 rates)/PCMA/PCMU/Opus/none: lal's own LogicContext and the reference RFC 4566/6184/7798/3640 reader must both return the packed codec, payload type, clock, control and parameter sets; (6) the AvPacket→RTMP remuxer fed with parameter sets in one packet or in separate packets (AVCC and Annex-B) from a buffer the caller reuses and overwrites: the emitted sequence header must carry the sets as fed; (7) picture dimensions: an SPS from the H.264 model (13 high + 3 plain profiles, chroma formats 0–3 with separate colour planes, scaling lists, POC types 0/1/2 with small and 30-bit offsets, frame/field coding, cropping in all four directions, VUI with timing) or the H.265 model (chroma formats, conformance window) is fed as a sequence header through the customize-publisher API of a running server and the stat's video_width/height must equal the model's ground truth. Acceptable outcomes for (1)–(3): byte-exact or an explicit error. cell = group (× codec pair / profile class).",
+		Rule: "generated inputs through lal's real conversion functions, output compared with the input bytes: (1) AVC sequence header build → parse (both parsers) → Annex-B for SPS from a bit-exact H.264 SPS encoder model or arbitrary NAL-like byte strings of 4…65 535 bytes with emulation-prevention bytes, PPS up to 65 535 bytes; (2) HEVC classic and enhanced-RTMP sequence headers likewise (model SPS, real VPS, PPS up to 65 535 bytes); (3) NAL lists of 0–40 units (1 B…140 KB) AVCC → Annex-B → reference splitter, Annex-B with 3/4-byte start codes, leading and trailing zeros → IterateNaluAnnexb / Annexb2Avcc → reference splitter, IterateNaluAvcc, SplitNaluAvcc; (4) every 2-byte AudioSpecificConfig (object 1–31 × 13 indices × 0–7 channels): unpack/pack, RTMP sequence header, ADTS header for object 1–4 parsed by the reference ADTS reader and converted back; (5) sdp.Pack for H264/H265/none × AAC (13 rates)/PCMA/PCMU/Opus/none: lal's own LogicContext and the reference RFC 4566/6184/7798/3640 reader must both return the packed codec, payload type, clock, control and parameter sets; (6) the AvPacket→RTMP remuxer fed with parameter sets in one packet or in separate packets (AVCC and Annex-B) from a buffer the caller reuses and overwrites: the emitted sequence header must carry the sets as fed; (6b) the RTMP→RTSP remuxer fed AVC / HEVC classic / enhanced-RTMP HEVC sequence headers and frames from one message buffer that is overwritten after every call (as lal's relay pull does): the SDP handed over later carries the published sets; (7) picture dimensions: an SPS from the H.264 model (13 high + 3 plain profiles, chroma formats 0–3 with separate colour planes, scaling lists, POC types 0/1/2 with small and 30-bit offsets, frame/field coding, cropping in all four directions, VUI with timing) or the H.265 model (chroma formats, conformance window) is fed as a sequence header through the customize-publisher API of a running server and the stat's video_width/height must equal the model's ground truth. Acceptable outcomes for (1)–(3): byte-exact or an explicit error. cell = group (× codec pair / profile class).",
 		Assumptions: []string{"parameter-set byte strings contain no start-code emulation (zero runs are broken by emulation-prevention bytes), as in any conforming stream"},
 		MinCells: 6,
 		Run: func(c *fw.Ctx, i int) {
@@ -1085,6 +1178,7 @@ func init() {
 					c19Aac(c)
 				} else if i%14 == 3 {
 					c19Remuxer(c, n)
+					c19Rtmp2Rtsp(c, n)
 				} else {
 					c19Sdp(c, n)
 				}
